@@ -412,22 +412,49 @@ class WebSocketTemporaryHandler(object):
             self._writeFrame(frame)
         self.closed = True
 
+    def _frameLength(self):
+        """ private the size in bytes of the next frame in the buffer
+        or None if the frame header is not yet complete
+        """
+        buf = self._buffer.buf
+        if len(buf) < 2:
+            return None
+        length = buf[1] & 0x7F
+        size = 2 + (4 if buf[1] & 0x80 else 0)
+        if length == 126:
+            if len(buf) < 4:
+                return None
+            length, = struct.unpack("!H", buf[2:4])
+            size += 2
+        elif length == 127:
+            if len(buf) < 10:
+                return None
+            length, = struct.unpack("!Q", buf[2:10])
+            size += 8
+        return size + length
+
     def __call__(self, data):
         self._buffer._push(data)
 
-        frame = self._readFrame()
+        # a tcp read may contain part of a frame or more than one frame
+        while True:
+            size = self._frameLength()
+            if size is None or len(self._buffer.buf) < size:
+                break
 
-        if not frame.flags.mask:
-            raise Exception("client mask bit not set")
+            frame = self._readFrame()
 
-        if frame.flags.opcode == WebSocketOpCode.Text:
-            frame.payload = frame.payload.decode("utf-8")
+            if not frame.flags.mask:
+                raise Exception("client mask bit not set")
 
-        # TODO: catch and close?
-        self._endpt.callback(self, frame.flags.opcode, frame.payload)
+            if frame.flags.opcode == WebSocketOpCode.Text:
+                frame.payload = frame.payload.decode("utf-8")
 
-        if frame.flags.opcode == WebSocketOpCode.Close:
-            self.close()
+            # TODO: catch and close?
+            self._endpt.callback(self, frame.flags.opcode, frame.payload)
+
+            if frame.flags.opcode == WebSocketOpCode.Close:
+                self.close()
 
 def get(path):
     """decorator which registers a class method as a GET handler
